@@ -645,6 +645,26 @@ func main() {
 		pj := []byte(`{"ProtocolVersion":"1.0","SenderID":"` + string(tb) + `","ReceiverID":"0102030405060708","TransactionID":` + strconv.Itoa(r.Intn(1<<31)) + `,"MessageType":"JoinReq","PHYPayload":"` + string(tb) + `","DevEUI":"` + string(tb) + `","DLSettings":"` + string(tb) + `","RxDelay":` + strconv.Itoa(r.Intn(300)) + `}`)
 		guard(s, "backend.JoinReqPayload JSON", pj, func(x []byte) { var f backend.JoinReqPayload; _ = json.Unmarshal(x, &f) })
 		guard(s, "backend.JoinAnsPayload JSON", pj, func(x []byte) { var f backend.JoinAnsPayload; _ = json.Unmarshal(x, &f) })
+		// a key envelope as a peer sends it (any AESKey length, label present / absent), decoded and then opened:
+		// a value or an error (the panics on 0..15 octets were finding C17-… / audit C09 #1, fixed by 7293486)
+		ek := make([]byte, 2*[]int{0, 1, 7, 8, 9, 15, 16, 17, 23, 24, 25, 32, 40, 41}[r.Intn(14)])
+		for j := range ek {
+			ek[j] = hexd[r.Intn(len(hexd))]
+		}
+		if len(ek) >= 16 && r.Bool() {
+			copy(ek, "a6a6a6a6a6a6a6a6")
+		}
+		ej := []byte(`{"KEKLabel":"` + []string{"", "x"}[r.Intn(2)] + `","AESKey":"` + string(ek) + `"}`)
+		if r.Intn(6) == 0 {
+			ej = []byte(`{"KEKLabel":"x"}`)
+		}
+		kek := r.Bytes([]int{0, 8, 16, 24, 32}[r.Intn(5)])
+		guard(s, "backend.KeyEnvelope JSON + Unwrap", ej, func(x []byte) {
+			var e backend.KeyEnvelope
+			if json.Unmarshal(x, &e) == nil {
+				_, _ = e.Unwrap(kek)
+			}
+		})
 	}
 	// text decoders on text that is not ASCII: runes whose case mapping changes their UTF-8 length (ſ ı İ ß K Å ǰ ΐ),
 	// combining marks, surrogates and invalid UTF-8, full-width digits, NUL, very long runs — alone, repeated, and
